@@ -256,6 +256,10 @@ def py_to_sx(node):
                 return ["and" if n == "logical_and" else "or", py_to_sx(args[0]), py_to_sx(args[1])]
             if n == "logical_not" and len(args) == 1:
                 return ["not", py_to_sx(args[0])]
+            if n in ("float64", "real") and len(args) == 1:
+                # numpy.float64(c) wraps the base of a constant power, numpy.real(x) stands for sympy's re(x):
+                # both are the identity on the real values of a model and are applied column by column
+                return py_to_sx(args[0])
             if n == "sign" and len(args) == 1:
                 a = py_to_sx(args[0])
                 zero, one = ["n", "0", "1", 1], ["n", "1", "1", 1]
